@@ -1281,11 +1281,23 @@ def _dp_nc(S):
 # ambient
 # =====================================================================================================
 
-def _cast(r, n=None, H=None, extras=True):
-    """synthetic stable CTD table in standard units: (data [z, T, S, P, extras...], names, units)"""
+def _cast(r, n=None, H=None, extras=True, inversions=False):
+    """synthetic CTD table in standard units: (data [z, T, S, P, extras...], names, units); stable unless
+    `inversions`: then (as in measured casts, and as in the generator of C14) a few levels — interior ones and, half
+    of the time, the DEEPEST sample — are warmed or freshened so that potential density is locally not monotone"""
     from tamoc import ambient
     ps = profile_spec(r, H=H, current='none', n=n)
     z, T, S = profile_columns(ps)
+    if inversions:
+        rows = [r.randrange(1, len(z)) for _k in range(r.randint(1, 3))]
+        if r.random() < 0.5:
+            rows.append(len(z) - 1)
+        for j in rows:
+            if r.random() < 0.5:
+                T[j] += r.uniform(0.5, 5.)
+            else:
+                S[j] -= r.uniform(0.2, 1.5)
+        ps = dict(ps, inversion_rows=sorted(set(rows)))
     P = ambient.compute_pressure(z, T, S, 0)
     cols, names, units = [z, T, S, P], ['z', 'temperature', 'salinity', 'pressure'], ['m', 'K', 'psu', 'Pa']
     if extras:
@@ -1342,7 +1354,7 @@ def _amb_construct(S):
               'array-nostab', 'base-xarray']
     for i in range(max(S.reps(), 1) * 4):
         route = routes[i % len(routes)]
-        data, names, units, ps = _cast(r, extras=route not in ('array3',))
+        data, names, units, ps = _cast(r, extras=route not in ('array3',), inversions=(i // len(routes)) % 2 == 1)
         chem_names, chem_units = names[4:], units[4:]
         d = {'route': route, 'cast': ps, 'names': names, 'units': units}
         close = None
@@ -1526,6 +1538,9 @@ def _amb_xr(S):
         err = r.choice([0.01, 0.1, 1e-3])
         S.attempt('ambient.xr_coarsen_dataset', 'cast', dict(d, err=err), lambda: num(ambient.xr_coarsen_dataset(ds, 'z', err)))
         S.attempt('ambient.xr_stabilize_dataset', 'cast', d, lambda: num(ambient.xr_stabilize_dataset(_xr_dataset(data, names, units), 'z', names[:4])))
+        dinv, ninv, uinv, psinv = _cast(r, inversions=True)
+        S.attempt('ambient.xr_stabilize_dataset', 'cast-with-inversions', {'cast': psinv, 'names': ninv, 'units': uinv},
+                  lambda: num(ambient.xr_stabilize_dataset(_xr_dataset(dinv, ninv, uinv), 'z', ninv[:4])))
         zc = np.linspace(0., ps['H'] * r.uniform(0.5, 1.2), r.randint(2, 9))
         new = np.column_stack([zc, 1e-3 * (1. + zc / ps['H']), 0.1 * np.ones(len(zc))])
         ds4 = _xr_dataset(data, names, units)
@@ -1594,8 +1609,10 @@ def _amb_arrays(S):
         S.attempt('ambient.coarsen', 'cast', dict(d, err=err), lambda: ambient.coarsen(data.copy(), err))
         inv = data.copy()
         for _k in range(r.randint(0, 3)):
-            j = r.randrange(1, n - 1)
+            j = r.randrange(1, n)                        # interior levels and the deepest sample
             inv[j, 1] += r.uniform(0.5, 5.)              # warm parcels: density inversions
+        if r.random() < 0.5:
+            inv[n - 1, 2] -= r.uniform(0.2, 1.5)         # fresher deepest sample: reversal at the bottom of the cast
         S.attempt('ambient.stabilize', 'inversions', dict(d, data=inv), lambda: ambient.stabilize(inv.copy()))
         # ---- compute_pressure, depth positive down, free surface first (the convention of every tamoc model)
         z, T, Sa = data[:, 0], data[:, 1], data[:, 2]
